@@ -731,14 +731,22 @@ def r04e(run, rule="R04e"):
     ha = analysis(h)
     sets = [(n, c) for n, c in ha.all_calls() if call_attr(c) in ("set_attributes",)]
     posts = [(n, c) for n, c in ha.all_calls() if isinstance(c.func, ast.Name) and c.func.id == "post_init"]
-    parses = [n for n, c in ha.all_calls() if isinstance(c.func, ast.Name) and c.func.id == "parser"]
+    # the parser local is found by role: bound to the result of `<x>.get_parser(...)`
+    def is_parser_name(n_, name):
+        defs = ha.rd.defs_of(n_, name)
+        return bool(defs) and all(d.kind == "stmt" and isinstance(d.ast, ast.Assign) and isinstance(d.ast.value, ast.Call)
+                                  and call_attr(d.ast.value) == "get_parser" for d in defs)
+    parses = [n for n, c in ha.all_calls() if isinstance(c.func, ast.Name) and is_parser_name(n, c.func.id)]
+    run.floor(rule, "parser calls in the generated __init__", len(parses), 1)
     run.floor(rule, "set_attributes sites in the generated __init__", len(sets), 1)
     for n, c in sets + posts:
         cnt += 1
-        vals = [a for a in c.args if isinstance(a, ast.Name) and a.id == "values"]
+        # the values argument: the first positional of set_attributes, the second of post_init
+        pos = 0 if (n, c) in sets else 1
+        vals = [c.args[pos]] if len(c.args) > pos and isinstance(c.args[pos], ast.Name) else []
         ok = bool(vals)
         if ok:
-            for d in ha.rd.defs_of(n, "values"):
+            for d in ha.rd.defs_of(n, vals[0].id):
                 if d in parses:
                     continue
                 # `values = kwargs` is allowed only under the no_parse flag
@@ -894,7 +902,7 @@ def r04h(run):
                     # validators run through the compiled list: `validator(value, constraint)` in Rule.parse
                     rp = run.repo.func("utype.parser.rule", "Rule.parse")
                     rfa = analysis(rp)
-                    vs = [m for m, c_ in rfa.all_calls() if isinstance(c_.func, ast.Name) and c_.func.id == "validator"]
+                    vs = [m for _f, _fa, m, c_, kind_ in foreign_sites(run, [rp]) if kind_ == "validator"]
                     ok = bool(vs) and all(local_containment(rfa, m)[0] for m in vs)
                     why = "the validator call in Rule.parse is inside a catch-all try" if ok else "the validator call in Rule.parse is not contained"
                 if not ok:
